@@ -5,7 +5,7 @@ from __future__ import annotations
 import ast
 from typing import Dict, List, Optional, Tuple
 
-from .. import codec, docs, links, parity
+from .. import packed, codec, docs, links, parity
 from ..cfg import CFG
 from ..links import Mut, SIDE
 from ..model import AnchorMissing, Repo, attr_chain, norm, stmts_of, walk_no_nested
@@ -168,9 +168,11 @@ def _inner_loops(fn: ast.FunctionDef) -> List[Tuple[ast.For, ast.For]]:
     """(outer loop over modules, inner loop over that module's in_links)."""
     out = []
     for st in fn.body:
-        if isinstance(st, ast.For) and "self.object.modules" in norm(st.iter):
+        if isinstance(st, ast.For) and isinstance(st.target, ast.Name):
+            # the outer loop visits modules (in whatever order / through whatever view of the module list): recognised by the
+            # inner loop, which walks <its variable>.in_links
             for sub in ast.walk(st):
-                if isinstance(sub, ast.For) and sub is not st and "in_links" in norm(sub.iter):
+                if isinstance(sub, ast.For) and sub is not st and f"{st.target.id}.in_links" in norm(packed.resolve_in_block(sub.iter, st.body)):
                     out.append((st, sub))
     return out
 
@@ -315,7 +317,20 @@ def rebuild_rules(repo: Repo, rep, P: str):
         order = [norm(g.nodes[n].ast) for n, _ in path if g.nodes[n].kind == "stmt" and g.nodes[n].ast is not None]
         def pos(sub):
             return next((i for i, s in enumerate(order) if sub in s), -1)
-        if not (0 <= pos("in_slot = len(") < pos(".out_link_slots.append(") and 0 <= pos("out_slot = len(") < pos(f"{mvar}.in_link_slots.append(")):
+        def eval_pos(var_or_expr: str, holder_append: str) -> int:
+            """where len(T) is evaluated: at its capture statement, or at the append that contains it"""
+            return pos(f"{var_or_expr} = len(") if var_or_expr in env else pos(holder_append)
+
+        def table_of(val: str) -> str:
+            return val[len("len("):-1] if val.startswith("len(") and val.endswith(")") else ""
+        t_slot, t_back = table_of(slot_val), table_of(back_val)
+        p_slot = eval_pos(own_slots[0].value, f"{mvar}.in_link_slots.append(")
+        p_back = eval_pos(os_[0].value, ".out_link_slots.append(")
+        captures_ok = bool(t_slot) and bool(t_back) and 0 <= p_slot <= pos(f"{t_slot}.append(") and 0 <= p_back <= pos(f"{t_back}.append(") \
+            and (own_slots[0].value in env or p_slot < pos(f"{t_slot}.append(") or t_slot != f"{mvar}.in_link_slots") \
+            and (os_[0].value in env or p_back < pos(f"{t_back}.append(") or t_back.endswith(".out_link_slots") is False or p_back == pos(".out_link_slots.append("))
+        # an inline len(T) inside the append to T itself reads the length before appending (arguments are evaluated first)
+        if not captures_ok:
             if ok:
                 rep.inconclusive(f"{P}.R3", construct, text, "order of length captures vs appends not recognised", where)
                 ok = False
@@ -418,12 +433,23 @@ def rebuild_rules(repo: Repo, rep, P: str):
                 if isinstance(par, ast.If):
                     inbody = any(cur is x for x in par.body)
                     conds.append((par.test, inbody))
+                # guard clauses earlier in the same statement list: `if T: continue` before this statement means `not T` here
+                for fld in ("body", "orelse"):
+                    lst = getattr(par, fld, None)
+                    if isinstance(lst, list) and any(cur is x for x in lst):
+                        for sib in lst:
+                            if sib is cur:
+                                break
+                            if isinstance(sib, ast.If) and not sib.orelse and sib.body and isinstance(sib.body[-1], (ast.Continue, ast.Return, ast.Break, ast.Raise)):
+                                conds.append((sib.test, False))
                 cur = par
             kexpr = norm(resolve_names(st.targets[0].slice, odefs))
             good = False
             detail = "no guard"
             for t, inbody in conds:
                 t2 = resolve_names(t, odefs)
+                while isinstance(t2, ast.UnaryOp) and isinstance(t2.op, ast.Not):
+                    t2, inbody = t2.operand, not inbody
                 if isinstance(t2, ast.Compare) and len(t2.ops) == 1 and norm(t2.left) == kexpr:
                     try:
                         c = repo.fold(t2.comparators[0])
